@@ -45,6 +45,7 @@ func TestC15(t *testing.T) {
 		}
 		u.c.Close()
 	}
+	c15OtherUniverses(t, rec)
 	c15EnvFaults(t, rec)
 	rec.SetExhaustive(false)
 	rec.Floor("crash_points_injected", 200)
@@ -165,5 +166,67 @@ func c15ApplyFault(r *cdpRunner, rnd *rand.Rand) string {
 			r.env("fault", "crash "+as.Denom, func() { u.setPrice(as.Denom, np, true) })
 		}
 		return "market-crash"
+	}
+}
+
+// c15OtherUniverses: crash-point enumeration and panic-escape monitoring on the liquidity and the lend universes.
+func c15OtherUniverses(t *testing.T, rec *ev.Rec) {
+	v := ev.ShardNo()
+	// ---- liquidity: per-app batch execution / request clean-up steps in the end blocker, fee conversion in the begin blocker
+	{
+		w := liqNewWorld(t, ev.NewScratch(), rng("C15-liq-setup", v), v, nil)
+		w.rnd = rng("C15-liq", v)
+		panicked := false
+		w.c.PanicHook = func(phase string, h int64, p interface{}) {
+			panicked = true
+			rec.Violate(fmt.Sprintf("C15/panic-escape/%s/%s", phase, panicClass(p)), fmt.Sprintf("liquidity universe: %s at height %d panicked: %v", phase, h, p), map[string]interface{}{"stack": comdexFrames(w.c.LastPanicStack), "last_ops": append([]string(nil), w.trace...)})
+		}
+		for b := 0; b < ev.Pick(2, 6) && !panicked; b++ {
+			for i := 0; i < ev.Pick(12, 40) && !panicked; i++ {
+				for k := w.rnd.Intn(7); k > 0; k-- {
+					w.randomOp()
+				}
+				w.nextBlock(w.blockGap())
+			}
+			if panicked {
+				break
+			}
+			for k := 0; k < 6; k++ {
+				w.randomOp() // requests and orders pending for the explored end block
+			}
+			exploreAtBoundary(w.c, rec, w.blockGap(), "liquidity", ev.Pick(1200, 15000))
+			w.committed = false
+		}
+		w.c.Close()
+	}
+	// ---- lend: interest / reward iteration, generation-2 borrow liquidation (wrapped per borrow), auctions of seized borrows
+	{
+		e := c08Setup(t, ev.NewScratch(), rng("C15-lend-setup", v), 0, v%3, true)
+		e.rnd = rng("C15-lend", v)
+		e.c.PanicHook = func(phase string, h int64, p interface{}) {
+			e.panicked = true
+			rec.Violate(fmt.Sprintf("C15/panic-escape/%s/%s", phase, panicClass(p)), fmt.Sprintf("lend universe: %s at height %d panicked: %v", phase, h, p), map[string]interface{}{"stack": comdexFrames(e.c.LastPanicStack), "history_tail": e.tail(6)})
+		}
+		for b := 0; b < ev.Pick(2, 6) && !e.panicked; b++ {
+			for i := 0; i < ev.Pick(200, 700) && !e.panicked; i++ {
+				if e.rnd.Intn(100) < 30 {
+					e.blockStep()
+				} else {
+					e.txStep()
+				}
+			}
+			if e.panicked {
+				break
+			}
+			// a crash right before the boundary so that borrow liquidations are pending
+			for _, id := range e.u.Order {
+				if d := e.u.Assets[id].Denom; d == "uatom" || d == "uosmo" {
+					p, _ := e.u.Price(id)
+					e.u.SetPrice(id, p*6/10+1, true)
+				}
+			}
+			exploreAtBoundary(e.c, rec, time.Duration(5+e.rnd.Intn(3000))*time.Second, "lend", ev.Pick(1200, 15000))
+		}
+		e.c.Close()
 	}
 }
